@@ -12,6 +12,7 @@ git -C $WT checkout -q --detach $(git -C /repo rev-parse HEAD) 2>/dev/null
 git -C $WT checkout -q -- . ; git -C $WT clean -qfd
 rsync -a --delete --exclude build --exclude .git --exclude replays --exclude evidence /verif/ $SCR/verif/
 mkdir -p $SCR/verif/evidence
+rm -rf $SCR/verif/replays
 if ! git -C $WT apply "$PATCH"; then echo "PATCH DOES NOT APPLY"; exit 2; fi
 cd $SCR/verif
 for id in "$@"; do
